@@ -3,6 +3,7 @@ package c17
 import (
 	"fmt"
 	"os"
+	"strconv"
 	"strings"
 	"testing"
 	"time"
@@ -53,6 +54,21 @@ func obj() *doctree.Node         { return doctree.NewObj() }
 func buildSens(c sensCase) *doctree.Node {
 	S := func(i int) string { return c.Strs[i%len(c.Strs)] }
 	N := func(i int) string { return c.Nums[i%len(c.Nums)] }
+	hostileNums := c.bit(21) // numbers ogen rejects for every spelling are allowed in value positions
+	isInteger := c.bit(3)
+	// V: a number for enum / default / example / const positions
+	V := func(i int) string {
+		n := N(i)
+		if hostileNums || valueNumberOK(n, isInteger) {
+			return n
+		}
+		for _, m := range c.Nums {
+			if valueNumberOK(m, isInteger) {
+				return m
+			}
+		}
+		return "7"
+	}
 	var enumVals []*doctree.Node
 	seen := map[string]bool{}
 	for _, s := range c.Strs {
@@ -87,15 +103,20 @@ func buildSens(c sensCase) *doctree.Node {
 		numSchema.Set("maximum", num(N(1)))
 	}
 	if c.bit(13) {
-		numSchema.Set("multipleOf", num(N(2)))
+		m := N(2)
+		if !hostileNums && !positiveNumber(m) {
+			m = "2"
+		}
+		numSchema.Set("multipleOf", num(m))
 	}
 	if c.bit(14) {
-		numSchema.Set("default", num(N(3)))
+		numSchema.Set("default", num(V(3)))
 	}
 	if c.bit(4) {
 		var vals []*doctree.Node
 		ns := map[string]bool{}
-		for _, n := range c.Nums {
+		for i := range c.Nums {
+			n := V(i)
 			if !ns[n] {
 				ns[n] = true
 				vals = append(vals, num(n))
@@ -104,17 +125,17 @@ func buildSens(c sensCase) *doctree.Node {
 		numSchema.Set("enum", doctree.NewArr(vals...))
 	}
 	if c.bit(7) {
-		numSchema.Set("const", num(N(0)))
+		numSchema.Set("const", num(V(0)))
 	}
 	if c.bit(15) {
-		numSchema.Set("example", num(N(1)))
+		numSchema.Set("example", num(V(1)))
 	}
 
 	props := obj()
 	required := doctree.NewArr()
 	pname := func(i int, fallback string) string {
 		if c.bit(1) {
-			return S(i)
+			return nameable(S(i), c.bit(22))
 		}
 		return fallback
 	}
@@ -141,9 +162,9 @@ func buildSens(c sensCase) *doctree.Node {
 	addProp(pname(2, "kind2"), strEnum()) // a repeated subtree (alias candidate)
 	if c.bit(6) {
 		addProp("free", obj().Set("type", str("object")).Set("default", obj().
-			Set("list", doctree.NewArr(str(S(0)), num(N(0)), doctree.NewNull(), doctree.NewBool(true), str(S(1)))).
+			Set("list", doctree.NewArr(str(S(0)), num(V(0)), doctree.NewNull(), doctree.NewBool(true), str(S(1)))).
 			Set(S(2), str(S(3))).
-			Set("n", num(N(1)))).
+			Set("n", num(V(1)))).
 			Set("x-custom", doctree.NewArr(str(S(0)), obj().Set(S(1), str(S(2))))))
 	}
 	if c.bit(8) {
@@ -167,13 +188,19 @@ func buildSens(c sensCase) *doctree.Node {
 	obj2.Set("properties", obj().Set("id", obj().Set("type", str("string"))).Set("kind", strEnum()))
 	obj3 := obj().Set("type", str("object")).Set("description", str(S(2)))
 	obj3.Set("properties", obj().Set("id", obj().Set("type", str("string"))).Set("kind", strEnum()).Set("more", obj().Set("type", str("integer"))))
+	// Twin is written before Obj2 and is identical to it, so with aliasing on Obj2
+	// becomes "*a"; Deep points INTO Obj2 with a JSON pointer.
+	twin := obj2.Clone()
+	deep := obj().Set("type", str("object")).Set("properties", obj().
+		Set("viaRef", obj().Set("$ref", str("#/components/schemas/Obj2/properties/id"))).
+		Set("viaRef2", obj().Set("$ref", str("#/components/schemas/Obj3/properties/more"))))
 	small := obj().Set("type", str("string"))
 	small2 := obj().Set("type", str("string")).Set("description", str(S(0)))
 
 	params := doctree.NewArr()
 	qname := "q"
 	if c.bit(5) {
-		qname = S(0)
+		qname = nameable(S(0), c.bit(22))
 	}
 	q := obj().Set("name", str(qname)).Set("in", str("query")).Set("schema", strEnum())
 	if c.bit(17) {
@@ -198,9 +225,64 @@ func buildSens(c sensCase) *doctree.Node {
 	root := obj().
 		Set("openapi", str("3.0.3")).
 		Set("info", obj().Set("title", str(S(0))).Set("version", str("1.0.0")).Set("description", str(S(1))).Set("x-info", str(S(2)))).
-		Set("paths", obj().Set("/thing", obj().Set("get", op)).Set("/thing2", simpleOp("getThing2", "Obj2")).Set("/thing3", simpleOp("getThing3", "Obj3")).Set("/small2", simpleOp("getSmall2", "Small2"))).
-		Set("components", obj().Set("schemas", obj().Set("Small", small).Set("Obj", objSchema).Set("Small2", small2).Set("Obj2", obj2).Set("Obj3", obj3)))
+		Set("paths", obj().Set("/thing", obj().Set("get", op)).Set("/thing2", simpleOp("getThing2", "Obj2")).Set("/thing3", simpleOp("getThing3", "Obj3")).Set("/small2", simpleOp("getSmall2", "Small2")).Set("/deep", simpleOp("getDeep", func() string {
+			if c.bit(24) {
+				return "Deep"
+			}
+			return "Small"
+		}()))).
+		Set("components", obj().Set("schemas", func() *doctree.Node {
+			m := obj().Set("Small", small).Set("Obj", objSchema).Set("Small2", small2)
+			if c.bit(23) {
+				m.Set("Twin", twin)
+			}
+			m.Set("Obj2", obj2).Set("Obj3", obj3)
+			if c.bit(24) {
+				m.Set("Deep", deep)
+			}
+			return m
+		}()))
 	return root
+}
+
+// valueNumberOK: ogen parses enum/default numbers with jx (integers must fit
+// int64; an integer schema wants integer texts).
+func valueNumberOK(n string, integer bool) bool {
+	pure := !strings.ContainsAny(n, ".eE")
+	if pure {
+		_, err := strconv.ParseInt(n, 10, 64)
+		return err == nil
+	}
+	return !integer
+}
+
+func positiveNumber(n string) bool {
+	if strings.HasPrefix(n, "-") {
+		return false
+	}
+	mant := n
+	if i := strings.IndexAny(n, "eE"); i >= 0 {
+		mant = n[:i]
+	}
+	return strings.ContainsAny(mant, "123456789")
+}
+
+// nameable: ogen derives Go identifiers from property / parameter names and
+// rejects names without any letter or digit; unless raw, such names get a prefix.
+func nameable(s string, raw bool) string {
+	if raw {
+		return s
+	}
+	for _, r := range s {
+		if r < 0x80 && (asciiAlnum(byte(r))) {
+			return s
+		}
+	}
+	return "p" + s
+}
+
+func asciiAlnum(c byte) bool {
+	return c >= 'a' && c <= 'z' || c >= 'A' && c <= 'Z' || c >= '0' && c <= '9'
 }
 
 func drawSens(t *rapid.T, fams []string) sensCase {
@@ -246,7 +328,10 @@ func sensRegress() []sensCase {
 	aliasRaw := doctree.Style{Class: "yaml-block", Indent: 2, AliasPM: 1000, ScalarAliasPM: 1000, Seed: 3}
 	aliasMain := aliasRaw
 	aliasMain.NoAliasUnder = rawValueKeys
-	merge := doctree.Style{Class: "yaml-block", Indent: 2, MergePM: 1000, Seed: 1}
+	aliasMain.ProtectRefPaths = true
+	aliasRef := aliasMain
+	aliasRef.ProtectRefPaths = false
+	merge := doctree.Style{Class: "yaml-block", Indent: 2, MergePM: 1000, Seed: 1, ProtectRefPaths: true, NoAliasUnder: rawValueKeys}
 	sur := doctree.Style{Class: "json-compact", JSONSurrogatePM: 1000, JSONEscapePM: 300}
 	all := uint32(0xffffffff) &^ (1 << 1) &^ (1 << 5)
 	return []sensCase{
@@ -258,6 +343,9 @@ func sensRegress() []sensCase {
 		{Strs: []string{"2001-01-01", "2002-02-02"}, Nums: []string{"1"}, Layout: all, SC: styleCase{famDate, date}},
 		{Strs: []string{"a", "b", "c"}, Nums: []string{"1", "2"}, Layout: all, SC: styleCase{famAliasRaw, aliasRaw}},
 		{Strs: []string{"a", "b", "c"}, Nums: []string{"1", "2"}, Layout: all, SC: styleCase{famMain, aliasMain}},
+		{Strs: []string{"a", "b"}, Nums: []string{"1"}, Layout: 1<<23 | 1<<24, SC: styleCase{famMain, aliasMain}},
+		{Strs: []string{"a", "b"}, Nums: []string{"1"}, Layout: 1<<23 | 1<<24, SC: styleCase{famAliasRef, aliasRef}},
+		{Strs: []string{"a", "b"}, Nums: []string{"1"}, Layout: 1<<23 | 1<<24, SC: styleCase{famMerge, merge}},
 		{Strs: []string{"a", "b", "c"}, Nums: []string{"1", "2"}, Layout: all, SC: styleCase{famMerge, merge}},
 		{Strs: []string{"smile 😀", "b"}, Nums: []string{"1"}, Layout: all, SC: styleCase{famMain, sur}},
 		{Strs: []string{"~", "null", "true", "0x1F", "1e3"}, Nums: []string{"1.0", "1e2", "-0", "1E+2"}, Layout: all, SC: styleCase{famMain, flow}},
@@ -280,7 +368,7 @@ func TestSensitive(t *testing.T) {
 			t.Errorf("harness: %d spelling(s) did not read back as the source tree (emitter bug, not a finding); first: %s", len(herr.msgs), clipStr(herr.msgs[0], 1500))
 		}
 	}()
-	fams := []string{famMain, famMain, famMain, famMain, famMain, famMain, famMain, famMain, famYAML11, famYAML11, famDate, famAliasRaw, famMerge}
+	fams := []string{famMain, famMain, famMain, famMain, famMain, famMain, famMain, famMain, famYAML11, famYAML11, famDate, famAliasRaw, famAliasRef, famMerge}
 	check := func(c sensCase) *vk.Finding {
 		if len(c.Strs) == 0 || len(c.Nums) == 0 {
 			return nil
@@ -312,7 +400,7 @@ func TestSensitive(t *testing.T) {
 	if shard, _ := vk.Shard(); shard == 0 {
 		regress = sensRegress()
 	}
-	vk.Rapid(u, scaled(vk.N(2500, 120000)), regress, func(rt *rapid.T) sensCase { return drawSens(rt, fams) }, check)
+	vk.Rapid(u, scaled(vk.N(1200, 40000)), regress, func(rt *rapid.T) sensCase { return drawSens(rt, fams) }, check)
 }
 
 var _ = strings.TrimSpace
